@@ -158,6 +158,16 @@ Class(fs, sp) ==
      ELSE IF ~Within(lex) THEN (IF sp.abs THEN "abs" ELSE "dotdot")
      ELSE IF w.ex THEN "link" ELSE "dangling"
 
+(* a directory cycle as sandboxed code sees it: some link inside the root is  *)
+(* joined (by either variant) onto a directory that contains it.  Functions  *)
+(* that walk directories recursively (io.Expand) never return on such a tree *)
+(* - the harness does not call them there.                                   *)
+IsPrefix(q, p) == Len(q) <= Len(p) /\ SubSeq(p, 1, Len(q)) = q
+Loopy(fs) == \E p \in DOMAIN fs : /\ fs[p].k = "link" /\ Within(p)
+                                  /\ \E impl \in {"asis", "fixed"} :
+                                       LET q == SJoin(fs, Sp(TRUE, p), impl) IN
+                                       q \in DOMAIN fs /\ fs[q].k = "dir" /\ IsPrefix(q, p)
+
 (* ------------------------------------------------------------ spellings *)
 Seqs(S, n) == UNION {[1..j -> S] : j \in 0..n}
 Prefixes == {Sp(FALSE, <<>>), Sp(TRUE, <<>>), Sp(TRUE, RootLoc), Sp(TRUE, OutLoc), Sp(TRUE, <<"a", "w">>)}
